@@ -1,3 +1,4 @@
+import KeepVerif.Gen.C29
 /-!
 # C29 model: Bitcoin wire codecs used by `pkg/bitcoin`
 
@@ -39,8 +40,13 @@ def unle : Bytes → Nat
   | b :: bs => b + 256 * unle bs
 
 /-- `io.ReadFull` of `k` bytes -/
-def takeN (k : Nat) : Dec Bytes := fun bs =>
-  if bs.length < k then .error .eof else .ok (bs.take k, bs.drop k)
+def takeN : Nat → Dec Bytes
+  | 0, bs => .ok ([], bs)
+  | _ + 1, [] => .error .eof
+  | k + 1, b :: bs =>
+    match takeN k bs with
+    | .ok (x, r) => .ok (b :: x, r)
+    | .error e => .error e
 
 def readLE (k : Nat) : Dec Nat := fun bs =>
   match takeN k bs with
@@ -180,12 +186,12 @@ structure Tx where
   locktime : Nat
 deriving Repr, DecidableEq
 
-/- btcd limits -/
-abbrev maxPayload : Nat := 33554432
-abbrev maxTxIn : Nat := 818401          -- MaxMessagePayload / 41 + 1
-abbrev maxTxOut : Nat := 3728271        -- MaxMessagePayload / 9 + 1
-abbrev maxWitnessItems : Nat := 4000000
-abbrev maxWitnessItemSize : Nat := 4000000
+/- btcd decode limits: measured on the real decoder by `harness/c29 -facts` (Gen/C29.lean) -/
+abbrev maxPayload : Nat := Gen.C29.maxScriptSize      -- MaxMessagePayload
+abbrev maxTxIn : Nat := Gen.C29.maxTxIn               -- MaxMessagePayload / 41 + 1
+abbrev maxTxOut : Nat := Gen.C29.maxTxOut             -- MaxMessagePayload / 9 + 1
+abbrev maxWitnessItems : Nat := Gen.C29.maxWitnessItems
+abbrev maxWitnessItemSize : Nat := Gen.C29.maxWitnessItemSize
 
 /-- `wire.WriteVarBytes` -/
 def varBytesEnc (s : Bytes) : Bytes := csEnc s.length ++ s
